@@ -1492,6 +1492,19 @@ impl ASN1Value {
                 }
                 if let Some(ToplevelDefinition::Value(tld)) = referenced {
                     *self = tld.value.clone();
+                    // the referenced value may be given by a named number of its own type
+                    if matches!(self, ASN1Value::ElsewhereDeclaredValue { .. }) {
+                        let mut referenced = tld.clone();
+                        referenced.collect_supertypes(tlds)?;
+                        *self = match referenced.value {
+                            ASN1Value::LinkedNestedValue { value, .. } => match *value {
+                                ASN1Value::LinkedIntValue { value, .. } => ASN1Value::Integer(value),
+                                _ => tld.value.clone(),
+                            },
+                            ASN1Value::LinkedIntValue { value, .. } => ASN1Value::Integer(value),
+                            _ => tld.value.clone(),
+                        };
+                    }
                     self.link_with_type(tlds, ty, type_name)?;
                 }
                 Ok(())
